@@ -124,4 +124,28 @@ CHECKS = {
   note="Task-level exploration relies on C05 (each promise operation is linearizable). User-supplied executors are exercised in C05; "
        "here the default executor is redirected to the scheduler. Await/timeouts are not covered.",
   technique="TLC model checking of partial evaluation semantics; exhaustive/random schedule exploration of the real package validated by TLC"),
+ "C09": dict(
+  text="Typeclass.tla gives instance expressions a meaning over abstract values (SemEq: components pairwise equal, nil/empty and "
+       "pointer identity abstracted away); TLC checks it is an equivalence on all triples of twelve universes (207 847 triples). For "
+       "80 instance expressions of the real eq/hash packages (depth <= 4, Tuple1..21, HCons/HNil, ContraMap, PtrGiven, New, GoMap, FpMap) "
+       "seeded universes containing distinct representations of equal values are built; the full Eqv matrix, hash equality classes and "
+       "hash determinism are logged and TLC (TraceTypeclass) accepts only Eqv = SemEq and SemEq => equal hashes.",
+  note="NaN excluded by the property; time.Time not in the universes. Hash values are compared, never predicted.",
+  technique="TLC checks the reference equivalence; full Eqv/hash-class matrices of the real instances validated by TLC"),
+ "C10": dict(
+  text="SemLess (None < Some, nil first, lexicographic with shorter prefix first) is checked by TLC to be a strict total order "
+       "compatible with SemEq on all triples. For every Ord instance expression of the real library the matrices of Less (both ways), "
+       "LessEq, Eqv, Compare, Min, Max, Reversed and ThenComparing over seeded universes are logged, and Sort/Min/Max of seq, iterator "
+       "and list on every key sequence of length <= 5 over 3 keys (tie-distinguishable payloads) plus long random inputs; TLC accepts "
+       "only SemLess, an ordered permutation of the untouched input and least/greatest elements.",
+  note="Sort need not be stable; Min/Max may return any least/greatest element; ord.Time not covered.",
+  technique="TLC checks the reference order; comparison matrices and sort results of the real library validated by TLC"),
+ "C18": dict(
+  text="For every Clone instance expression of the real library (Given, Ptr, Slice, Seq, GoMap, Option, Tuple2..21, HCons/HNil; depth "
+       "<= 4) and every value of a seeded universe (nil/empty cases, internally aliased pointers) the harness clones, collects through "
+       "reflection the addresses of all pointer targets, slice arrays and maps reachable from original and clone, mutates every mutable "
+       "cell of one side and re-reads the other (both directions); TLC (TraceTypeclass) accepts only: clone SemEq original, zero shared "
+       "addresses, neither side changed by the other's mutation.",
+  note="clone.Generic / derived struct clones are exercised in C08. Address collection uses reflect + unsafe on private fields.",
+  technique="heap-graph observation (addresses + mutation) of real clones validated by TLC against the abstract equality"),
 }
